@@ -121,12 +121,17 @@ def session(ctx, r, idx):
 	specs = [{"base_port": 5700, "name": "A"}, {"base_port": 6700, "name": "B"}]
 	bench = radio.Bench(r.getrandbits(30), specs)
 	log = []
-	for i, (rx, tx) in enumerate([(890000, 935000), (935000, 890000)]):
-		bench.cmd(i, "RXTUNE %d" % rx)
-		bench.cmd(i, "TXTUNE %d" % tx)
-		bench.cmd(i, "SETFORMAT %d" % r.choice((0, 1)))
-		bench.cmd(i, "POWERON")
-		bench.cmd(i, r.choice(DROPS))
+	try:
+		for i, (rx, tx) in enumerate([(890000, 935000), (935000, 890000)]):
+			bench.cmd(i, "RXTUNE %d" % rx)
+			bench.cmd(i, "TXTUNE %d" % tx)
+			bench.cmd(i, "SETFORMAT %d" % r.choice((0, 1)))
+			bench.cmd(i, "POWERON")
+			bench.cmd(i, r.choice(DROPS))
+	except common.HarnessError as e:
+		# no hostile input yet: the transceiver does not even serve the valid commands of the set-up
+		ctx.violation("probe", {"phase": "set-up with valid commands"}, what = "valid command not served: %s" % e)
+		return
 	fn = r.randrange(trxd.HYPERFRAME)
 	for step in range(r.randint(10, 30)):
 		i = r.randrange(2)
